@@ -41,6 +41,12 @@ func renderShape(shape string, n int) (string, error) {
 		return "/p {p} def p", nil
 	case "self-proc-nontail":
 		return "/p {p 1} def p", nil
+	case "xname-if-recursion":
+		return "/f { true { f } 0 get if 1 } def f", nil
+	case "xname-ifelse-recursion":
+		return "/f { false { } { f } 0 get ifelse 1 } def f", nil
+	case "xname-for-recursion":
+		return "/f { 0 1 0 { f } 0 get for 1 } def f", nil
 	case "proc-in-itself":
 		return "/p {0 1} def /p load 0 /p load put p", nil
 	case "dict-begin-loop":
@@ -191,6 +197,20 @@ func firstCountLine(data []byte) string {
 	return ""
 }
 
+// depthLimited: the child reported an error after fewer than 100000 operations.
+func depthLimited(out string) bool {
+	var e bool
+	var n int
+	i := strings.Index(out, "returned err=")
+	if i < 0 {
+		return false
+	}
+	if _, err := fmt.Sscanf(out[i:], "returned err=%t numops=%d", &e, &n); err != nil {
+		return false
+	}
+	return e && n < 100000
+}
+
 func shapeBudget(shape string, n int) int {
 	if shape == "cvx-nest-bind" {
 		return 12*n + 100 // enough to build all levels: the budget is the caller's choice
@@ -258,8 +278,9 @@ func runShapeChild(args []string) error {
 // fatal runtime error (stack exhaustion, out of memory) is observed, not suffered.
 func runShapes(args []string) error {
 	type vec struct {
-		Shape string `json:"shape"`
-		Size  int    `json:"size"`
+		Shape  string `json:"shape"`
+		Size   int    `json:"size"`
+		Expect string `json:"expect"`
 	}
 	sum := replaySummary{PerOp: map[string]int{}, PerOpOK: map[string]int{}, BySig: map[string]int{}}
 	self, _ := os.Executable()
@@ -319,6 +340,12 @@ func runShapes(args []string) error {
 				sum.NDisagree++
 				sum.BySig[sig]++
 				sum.Disagreements = append(sum.Disagreements, disagreement{Sig: sig, What: "the process was aborted (panic or fatal runtime error)", Stimulus: stim, Expected: "returns", Observed: fmt.Sprintf("%v: %s", e, obs)})
+			} else if v.Expect == "depth-limit" && !depthLimited(string(out)) {
+				sig := "shape " + v.Shape + " not cut off by the nesting limit"
+				sum.NDisagree++
+				sum.BySig[sig]++
+				sum.Disagreements = append(sum.Disagreements, disagreement{Sig: sig, What: "recursion that is not in tail position ran until the operation budget stopped it",
+					Stimulus: stim, Expected: "an error after a few hundred operations (nesting limit)", Observed: strings.TrimSpace(string(out))})
 			} else {
 				sum.Agreed++
 				sum.PerOpOK[v.Shape]++
